@@ -157,6 +157,7 @@ thread_local! {
 
 pub fn install_quiet_panic_hook() {
     std::panic::set_hook(Box::new(|info| {
+        let _untracked = ();
         let msg = if let Some(s) = info.payload().downcast_ref::<&str>() {
             s.to_string()
         } else if let Some(s) = info.payload().downcast_ref::<String>() {
@@ -168,7 +169,9 @@ pub fn install_quiet_panic_hook() {
             .location()
             .map(|l| format!(" at {}:{}", l.file(), l.line()))
             .unwrap_or_default();
-        LAST_PANIC.with(|p| *p.borrow_mut() = Some(format!("{msg}{loc}")));
+        crate::simalloc::untracked(|| {
+            LAST_PANIC.with(|p| *p.borrow_mut() = Some(format!("{msg}{loc}")));
+        });
     }));
 }
 
